@@ -10,6 +10,8 @@ SC4 = bytes([0, 0, 0, 1])
 CORPUS = {
     # C01: data before the CRC equal to G(x)*x^7 after 3 alignment bits (CRC cannot see the shift)
     "c01-align-remaining": bytes.fromhex("19080908406136505882608edb80000000000000000000000000af231a5480"),
+    # C01: el_bit_depth_minus8 coded with bits above bit 15, CRC equal to the CRC of the re-encoded (shorter) payload
+    "c01-el-bit-depth-high-bits": bytes.fromhex("1908090840613000000000000ff4a6a8b000194160943f537f80"),
     # C03/C01: luma curve with a polynomial piece then an MMR piece
     "c03-mixed-method": bytes.fromhex("19080908406136504e800801ff801ffc00fffd000000800000220000020000020000020000020000020000020000020000034000002000001a0000010000007225a86380"),
 }
